@@ -77,13 +77,18 @@ def _make(strat, kind, norm, with_reference=True):
         eo, lm = E.ErrorCalculatorSingleDimVolumeGuided(), (1, 2)
     elif strat.startswith("es"):
         # es_gl*: a non-nested grid family (points of coarser grids are not re-used); *_recalc: periodic from-scratch recalculation
-        grid = GaussLegendreGrid(A, B) if strat.startswith("es_gl") else TrapezoidalGrid(A, B, boundary=True)
+        if strat.startswith("es_lag"):       # hierarchical high-order local grid, three splits before an extend
+            from sparseSpACE.Grid import LagrangeGrid
+            grid = LagrangeGrid(A, B, boundary=True, p=2)
+        else:
+            grid = GaussLegendreGrid(A, B) if strat.startswith("es_gl") else TrapezoidalGrid(A, B, boundary=True)
         op = Integration(f, grid=grid, dim=D, reference_solution=refsol)
         sa = SpatiallyAdaptiveExtendScheme(A, B, operation=op, norm=nrm, version={"es_v1": 1}.get(strat, 0),
-                                           automatic_extend_split=(strat == "es_auto"))
+                                           automatic_extend_split=(strat == "es_auto"),
+                                           number_of_refinements_before_extend=3 if strat.startswith("es_lag") else 1)
         eo, lm = E.ErrorCalculatorExtendSplit(), (1, 2)
         if strat.endswith("_recalc"):
-            sa.refinements_for_recalculate = 2       # the library default (100) is out of reach of a bounded run
+            sa.refinements_for_recalculate = 7 if strat.startswith("es_lag") else 2       # the library default (100) is out of reach of a bounded run
     else:
         grid = TrapezoidalGrid(A, B, boundary=True)
         op = Integration(f, grid=grid, dim=D, reference_solution=refsol)
@@ -108,12 +113,25 @@ def _continue_case(case):
     strat, kind, norm = c["strategy"], c["integrand"], c["norm"]
     key = {"strategy": strat.split("_")[0], "phase": "continuation"}
     sa, eo, lm, op, ref, seen, nrm = _make(strat, kind, norm)
-    R1 = sa.performSpatiallyAdaptiv(lm[0], lm[1], eo, tol=c["tol"], max_evaluations=c["max_evaluations"], min_evaluations=1, print_output=False)
+    results = []
+    oe = sa.evaluate_operation
+
+    def ev_wrap():
+        r = oe()
+        results.append(np.array(op.get_result(), dtype=float).copy())
+        return r
+    sa.evaluate_operation = ev_wrap
+    # reeval: the first phase asks for a from-scratch re-evaluation at its end (the continuation must still report truthful errors)
+    kw1 = {"reevaluate_at_end": True} if c.get("reeval_first") else {}
+    R1 = sa.performSpatiallyAdaptiv(lm[0], lm[1], eo, tol=c["tol"], max_evaluations=c["max_evaluations"], min_evaluations=1, print_output=False, **kw1)
     n1 = len(R1[6])
+    results = results[:n1]        # evaluations of the loop only (the re-evaluation at the end is not an entry of the history arrays)
     t2, m2 = c["then"]["tol"], c["then"]["max_evaluations"]
     R2 = sa.continue_adaptive_refinement(tol=t2, max_evaluations=m2)
     errs, pts = list(R2[5]), list(R2[6])
     fails = []
+    if c.get("reeval_first"):
+        key = dict(key, reevaluated_first=True)
     if len(errs) != len(pts) or len(pts) <= n1:
         fails.append(fail("array_lengths", "after the continuation: %d errors, %d point counts, %d before" % (len(errs), len(pts), n1), key))
         return {"failures": fails, "canon": core.config_key(c), "outcome": (n1, len(pts)), "nontrivial": True, "evals": len(pts)}
@@ -125,6 +143,22 @@ def _continue_case(case):
     if stop != len(pts) - 1:
         fails.append(fail("stop_index", "continuation with tol %r max %r after a run with tol %r max %r: model stops at evaluation %r, run ended at %d; errors %r points %r"
                           % (t2, m2, c["tol"], c["max_evaluations"], stop, len(pts) - 1, errs[n1:], pts[n1:]), key))
+    # the errors reported during the continuation are the deviations of the results reported at those evaluations
+    loop_results = [r for r in results]
+    if not c.get("reeval_first") or True:
+        # with reevaluate_at_end every phase ends with one extra evaluate_final_combi(), which does not go through evaluate_operation
+        if len(loop_results) == len(errs):
+            for k in range(n1, len(errs)):
+                res = loop_results[k]
+                if LA.norm(ref) == 0:
+                    expect = LA.norm(abs(res), nrm) / (len(res) ** (1 / nrm))
+                else:
+                    expect = LA.norm(abs((ref - res) / ref), nrm) / (len(res) ** (1 / nrm))
+                if not (abs(expect - errs[k]) <= 1e-12 * max(1.0, abs(expect))):
+                    fails.append(fail("error_formula", "continuation, evaluation %d: reported error %r, deviation of the reported result from the reference %r" % (k, errs[k], expect), key))
+                    break
+        else:
+            fails.append(fail("array_lengths", "%d evaluations of the loop, %d error entries" % (len(loop_results), len(errs)), key))
     if pts[n1] != pts[n1 - 1]:
         fails.append(fail("reevaluation_point_count", "first evaluation of the continuation reports %d points, the state had %d" % (pts[n1], pts[n1 - 1]), key))
     return {"failures": fails, "canon": core.config_key(c), "outcome": (n1, tuple(pts[n1:])), "nontrivial": len(pts) > n1 + 1, "evals": len(pts)}
@@ -204,7 +238,7 @@ def run_case(case):
             expect = LA.norm(abs(res), nrm) / (len(res) ** (1 / nrm))
         else:
             expect = LA.norm(abs((ref - res) / ref), nrm) / (len(res) ** (1 / nrm))
-        if k < len(errs) and abs(expect - errs[k]) > 1e-12 * max(1.0, abs(expect)):
+        if k < len(errs) and not (abs(expect - errs[k]) <= 1e-12 * max(1.0, abs(expect))):
             fails.append(fail("error_formula", "evaluation %d: reported error %r, deviation of the result from the reference %r" % (k, errs[k], expect), key))
             break
     if evs and not np.array_equal(np.asarray(R[3], dtype=float), evs[-1][3]):
@@ -269,6 +303,9 @@ def main(ctx):
             for tol2, mx2 in ((0, nk[2]), (-1, nk[2]), (1e-3, nk[-1]), (1e10, None), (0, nk[0])):
                 cases.append({"config": dict(c0, tol=tol1, max_evaluations=mx1, then={"tol": tol2, "max_evaluations": mx2})})
                 ncont += 1
+                if (tol1, mx1) in ((1e-1, nk[1]), (0, nk[1])):
+                    cases.append({"config": dict(c0, tol=tol1, max_evaluations=mx1, reeval_first=True, then={"tol": tol2, "max_evaluations": mx2})})
+                    ncont += 1
     results = ctx.map(cases, chunksize=2)
     for case, res in zip(cases, results):
         ctx.absorb(case, res, group=case["config"]["strategy"])
